@@ -16,7 +16,7 @@ import c01_model
 GEOMS_QUICK = [  # (nd, np, zmode, hashsize, nfiles, holes)
     (2, 1, False, None, 5, False), (3, 2, False, None, 8, True), (2, 3, True, 4, 5, False), (4, 2, False, 8, 9, True),
     (3, 6, False, None, 6, False), (2, 2, False, 4, 6, True), (3, 3, False, None, 7, False), (3, 1, False, 2, 6, False),
-    (3, 1, False, None, 5, False, 'rehash'), (2, 2, False, None, 5, True, 'rehash'),
+    (3, 1, False, None, 5, False, 'rehash'), (2, 2, False, None, 5, True, 'rehash'), (2, 1, False, None, 2, False, 'deep'),
 ]
 GEOMS_THOROUGH = GEOMS_QUICK + [(4, 4, False, None, 14, True), (4, 3, True, None, 12, True), (2, 5, False, 4, 6, False), (4, 1, False, None, 20, True),
                                 (3, 2, False, 2, 10, True), (2, 6, False, None, 8, True), (4, 2, False, None, 10, False, 'rehash'), (3, 3, False, 8, 8, True, 'rehash')]
@@ -47,6 +47,12 @@ class Arr04:
                 a.remove(d, sub2rel(f['sub']))
                 self.recipe.append(('remove', d, sub2rel(f['sub'])))
                 r = a.run('sync', '--force-empty')
+        if self.kind == 'deep' and r.rc == 0:
+            # more than 260 stripes on one disk: a one-block file that sorts first, and a 300-block file that sorts last
+            a.write('d1', '000first', self.rng.randbytes(a.bs))
+            a.write('d1', 'zzzbig', self.rng.randbytes(300 * a.bs - 17))
+            self.recipe += [('file', 'd1', '000first', a.bs), ('file', 'd1', 'zzzbig', 300 * a.bs - 17)]
+            r = a.run('sync', '--test-force-murmur3')
         if self.kind == 'rehash' and r.rc == 0:
             # a hash migration in progress: every stripe keeps its old-kind hashes and the rehash flag until a sync / scrub converts it
             r = a.run('rehash')
@@ -80,7 +86,7 @@ class Arr04:
         return out
 
     # ---------------------------------------------------------------------------------------------------
-    def run_trial(self, dmg, label):
+    def run_trial(self, dmg, label, scrub_opts=()):
         """dmg: list of ('d', pos, disk, file, idx, shape) | ('p', pos, level, shape) | ('swap', disk, file, i, j)
         | ('t', disk, file): the file is only TOUCHED (same bytes, new time-stamp, not synced): not a corruption, nothing may be
         reported for it; but scrub compares the parity of its stripes as 'unsynced' (a parity mismatch there is a plain
@@ -185,8 +191,9 @@ class Arr04:
         if (r.rc != 0) != bool(exp_data):
             bad.append('check -a exits %d with damaged data %s' % (r.rc, sorted(exp_data)))
         # ---- scrub
-        r = a.run('scrub', '-p', 'full')
+        r = a.run('scrub', '-p', 'full', *scrub_opts)
         results[('scrub', ('-p', 'full'))] = r
+        first_scrub_summary = r.summary()
         tags = interesting(r.tags)
         got_data = set(tagkey(t)[0] for t in tags if t.startswith('error:'))
         got_par = set(tagkey(t)[0] for t in tags if t.startswith('parity_error:'))
@@ -213,6 +220,27 @@ class Arr04:
                 bad.append('content file after scrub marks %s bad, damaged stripes are %s' % (marked, exp_bad))
         except Exception as e:
             bad.append('content file after scrub unreadable: %s' % e)
+        # ---- a LATER scrub over the still damaged, already marked stripes (nothing repaired in between): the same tags, the same
+        #      counters and a failing status again, whatever the plan that covers them
+        if not touched:
+            plan = [['-p', 'bad'], ['-p', 'full'], ['-p', '100', '-o', '0']][self.n['trials'] % 3]
+            r = a.run('scrub', *(plan + list(scrub_opts)))
+            tags = interesting(r.tags)
+            got_data = set(tagkey(t)[0] for t in tags if t.startswith('error:'))
+            got_par = set(tagkey(t)[0] for t in tags if t.startswith('parity_error:'))
+            pl = ' '.join(plan)
+            if got_data != exp_data:
+                bad.append('a second scrub %s reports data errors %s, damaged are %s' % (pl, sorted(got_data), sorted(exp_data)))
+            if got_par != exp_par_scrub:
+                bad.append('a second scrub %s reports parity errors %s, expected %s' % (pl, sorted(got_par), sorted(exp_par_scrub)))
+            if (r.rc != 0) != bool(exp_data or exp_par):
+                bad.append('a second scrub %s exits %d with damage %s' % (pl, r.rc, sorted(exp_data | exp_par)))
+            sm = r.summary()
+            for k in ('error_file', 'error_io', 'error_data'):
+                if sm.get(k) != first_scrub_summary.get(k):
+                    bad.append('a second scrub %s counts %s=%s, the first scrub counted %s' % (pl, k, sm.get(k), first_scrub_summary.get(k)))
+            if (sm.get('exit') == 'ok') != (not (exp_data or exp_par)):
+                bad.append('a second scrub %s ends with summary:exit:%s with damage %s' % (pl, sm.get('exit'), sorted(exp_data | exp_par)))
         if self.kind == 'rehash' and not touched:
             # the scrub has converted the healthy stripes and must have left the bad ones as they were: the SAME errors, and no
             # other, are reported by the commands that follow it
@@ -319,6 +347,33 @@ class Arr04:
             self.run_trial(dmg, 'combo')
             if len(self.chk.violations) > 8:
                 return
+
+    def touched_earlier(self, n, depths=(3, 8)):
+        """a file touched (or rewritten) since the sync EARLIER on a disk, and a silent corruption of a fully synced file of the SAME disk in
+        a later stripe whose distance is a multiple of the read-ahead ring depth (--test-io-cache N; 128 by default): the ring slot
+        of the touched stripe is reused, the corruption must still be a located Data error with a bad mark"""
+        a, rng = self.arr, self.rng
+        per_disk = {}
+        for pos, blocks in sorted(self.stripes.items()):
+            for dp, (s_, d, f, i, h) in blocks.items():
+                if f is not None:
+                    per_disk.setdefault(d, []).append((pos, f, i))
+        done = 0
+        for depth in depths:
+            cands = []
+            for d, lst in per_disk.items():
+                for (p0, f0, i0) in lst:
+                    for (p1, f1, i1) in lst:
+                        if p1 > p0 and (p1 - p0) % depth == 0 and f1['sub'] != f0['sub']:
+                            cands.append((d, f0, p1, f1, i1))
+            rng.shuffle(cands)
+            for (d, f0, p1, f1, i1) in cands[:n]:
+                opts = ['--test-io-cache', str(depth)] if depth != 128 else []
+                self.run_trial([('t', d, f0), ('d', p1, d, f1, i1, rng.choice(SHAPES))], 'touched_earlier', scrub_opts=opts)
+                done += 1
+                if len(self.chk.violations) > 8:
+                    return done
+        return done
 
     def variants(self, n):
         """coverage round: the option variants of check on a damaged array -- `-v` (status:correct for every intact file), `-a -d <disk>`
@@ -564,7 +619,10 @@ def main(tier, replay=None):
     def one(job):
         g, seed = job
         A = Arr04(chk, binary, model, g, seed)
-        if A.ok:
+        if A.ok and A.kind == 'deep':
+            A.touched_earlier(3 if tier == 'quick' else 12, depths=(128, 8, 3))
+        elif A.ok:
+            A.touched_earlier(2 if tier == 'quick' else 10)
             A.singles(2 if tier == 'quick' else 6)
             A.touched_neighbours(8 if tier == 'quick' else 60)
             A.combos(15 if tier == 'quick' else 120)
